@@ -18,6 +18,7 @@ RULE = (
     "full TR(d) = 2^d flips x d! axis permutations x padding patterns (per axis (0,0),(1,0),(0,3),(3,3); 3-D: (0,0),(3,3)) x layout pairs (prediction, reference) in {(C,C),(F,F),(neg,neg),(strided,strided),(F,C),(C,F),(neg,C),(strided,F)}: "
     "1-D 64 transforms on G1(3,2) x 9 refs (thorough: all pairs); 2-D 1024 transforms on 16 base pairs of G2(2,3,2) (thorough 128 + all of G2(2,2,2)^2 x UNMATCHED); 3-D 3072 transforms on 2 (thorough 16) base pairs of G3(2,2,2,2); x input type {SEMANTIC, UNMATCHED, MATCHED}. "
     "generators (each single flip, transposition, padding pattern alone, all 16 (prediction, reference) layout pairs alone, mixed layouts combined with every axis permutation) on G1(4,2) x 9 refs and G2(2,2,2) x 9 refs (thorough: all refs, + G2(2,3,2) x 27, G3(2,2,2,1) x 27) x {UNMATCHED, SEMANTIC}; generators on single-slice volumes G3(1,2,2,2), G3(2,2,1,2) x 3 refs (thorough 27) x SEMANTIC. "
+    "large scenes: three box pairs at the origin corner, the centre and the far corner of extents (41,40,41) (300,300) (130,128,130) (170,160,160) [thorough + (2100,2100)] (beyond 2^16, 2^21, 2^22 voxels) x each single flip, every axis permutation, a mixed layout and flip-all + asymmetric padding x {UNMATCHED, SEMANTIC}. "
     "non-trivial = both sides non-empty with a candidate pair and a non-identity transform; distinct by (base, transform, input type)"
 )
 ASSUMPTIONS = ["guard: equality only when no two competing candidate pairs tie; otherwise the transformed result must be an admissible result of the reference model"]
@@ -45,8 +46,46 @@ def bases3d(n):
     return out
 
 
+# scenes whose objects span extents beyond 2^16 / 2^21 / 2^22 voxels (block-wise / dtype-switching code paths)
+LARGE_EXTENTS = [(41, 40, 41), (300, 300), (130, 128, 130), (170, 160, 160), (2100, 2100)]
+
+
+def large_scene(extent):
+    """three (2-D: three) small box pairs: at the origin corner, in the middle and at the far corner; IoUs all different and
+    above 1/2; every prediction overlaps exactly one reference (the matching is unique)"""
+    nd = len(extent)
+    P, R = np.zeros(extent, dtype=np.uint8), np.zeros(extent, dtype=np.uint8)
+    anchors = [tuple(0 for _ in extent), tuple(n // 2 - 3 for n in extent), tuple(n - 6 - (1 if ax == nd - 1 else 0) for ax, n in enumerate(extent))]
+    for lab, (a, k) in enumerate(zip(anchors, (0, 1, 2)), start=1):
+        size = 4 + k
+        rs = tuple(slice(x, x + size) for x in a)
+        ps = tuple(slice(x + (1 if ax == 0 and k != 1 else 0), x + size + (1 if ax == nd - 1 else 0)) for ax, x in enumerate(a))
+        R[rs] = lab
+        P[ps] = 4 - lab
+    return P, R
+
+
+def large_transforms(nd):
+    ident = tuple(range(nd))
+    nopad = tuple((0, 0) for _ in range(nd))
+    trs = []
+    for ax in range(nd):
+        trs.append((tuple(a == ax for a in range(nd)), ident, nopad, "C"))
+    import itertools
+
+    for pm in itertools.permutations(range(nd)):
+        if pm != ident:
+            trs.append((tuple(False for _ in range(nd)), pm, nopad, "C"))
+    trs.append((tuple(False for _ in range(nd)), ident, nopad, ("F", "C")))
+    trs.append((tuple(True for _ in range(nd)), ident, tuple((1, 0) if a == 0 else (0, 2) for a in range(nd)), "C"))
+    return trs
+
+
 def blocks(tier):
     B = []
+    for e, ext in enumerate(LARGE_EXTENTS if tier == "thorough" else LARGE_EXTENTS[:4]):
+        for t in range(len(large_transforms(len(ext)))):
+            B.append(("large", e, t))
     n1 = sc.grid_count((3,), 2)
     for lo, hi in sc.ranges(n1, 1):
         B.append(("full1", tier, lo, hi))
@@ -81,7 +120,10 @@ def blocks(tier):
 
 def run_block(block, acc):
     kind = block[0]
-    if kind == "full1":
+    if kind == "large":
+        for itype in ("UNMATCHED", "SEMANTIC"):
+            run_case({"kind": "large", "extent": block[1], "t": block[2], "itype": itype}, acc)
+    elif kind == "full1":
         _, tier, lo, hi = block
         n = sc.grid_count((3,), 2)
         for i in range(lo, hi):
@@ -114,12 +156,21 @@ def run_block(block, acc):
 
 
 def run_case(case, acc):
-    shape = tuple(case["shape"])
-    bp, br = sc.grid(case["pi"], shape, case["k"]), sc.grid(case["ri"], shape, case["k"])
+    if case["kind"] == "large":
+        shape = LARGE_EXTENTS[case["extent"]]
+        bp, br = large_scene(shape)
+        case = {**case, "shape": list(shape), "k": 3, "pi": -1, "ri": -1}
+    else:
+        shape = tuple(case["shape"])
+        bp, br = sc.grid(case["pi"], shape, case["k"]), sc.grid(case["ri"], shape, case["k"])
     itype = case["itype"]
-    acc.case(case["kind"], shape, case["k"], case["pi"], case["ri"], itype, case.get("part"))
+    acc.case(case["kind"], shape, case["k"], case["pi"], case["ri"], itype, case.get("part"), case.get("t"))
     nd = len(shape)
-    if "transform" in case:
+    if case["kind"] == "large":
+        trs = [large_transforms(nd)[case["t"]]] if "transform" not in case else None
+    if case["kind"] == "large" and trs is not None:
+        pass
+    elif "transform" in case:
         t = case["transform"]
         trs = [(tuple(t[0]), tuple(t[1]), tuple(tuple(x) for x in t[2]), t[3] if isinstance(t[3], str) else tuple(t[3]))]
     elif case["kind"] == "full":
@@ -132,20 +183,20 @@ def run_case(case, acc):
     backend = "default" if itype == "SEMANTIC" else "none"
     st0, o0, _ = meta.run(itype, matcher, backend, bp.copy(), br.copy())
     if st0 == "EXC":
-        acc.violation(f"C10:base_raised:{type(o0).__name__}", case, f"{itype}: evaluate raised {o0!r} on pred={bp.tolist()} ref={br.tolist()}")
+        acc.violation(f"C10:base_raised:{type(o0).__name__}", case, f"{itype}: evaluate raised {o0!r} on " + (f"pred={bp.tolist()} ref={br.tolist()}" if bp.size <= 64 else f"large_scene(extent={list(shape)})"))
         return
     model = e2e.Model(bp, br, itype, backend)
     uniq = itype == "MATCHED" or meta.unique_matching(model, "IOU")
     nontriv = bool(model.rp.cands)
     if acc.evaluations % 499 == 1:
-        acc.sample({"pred": bp.tolist(), "ref": br.tolist(), "input_type": itype, "n_transforms": len(trs), "example_transform(flip,perm,pad,layout)": [list(map(list, trs[-1][:3])), trs[-1][3]] if False else repr(trs[-1])})
+        acc.sample({"pred": bp.tolist() if bp.size <= 64 else f"large_scene{shape}", "ref": br.tolist() if bp.size <= 64 else f"large_scene{shape}", "input_type": itype, "n_transforms": len(trs), "example_transform(flip,perm,pad,layout)": [list(map(list, trs[-1][:3])), trs[-1][3]] if False else repr(trs[-1])})
     for fl, pm, pd, ly in trs:
         P, R = sc.apply_transform(bp, fl, pm, pd, ly, 0), sc.apply_transform(br, fl, pm, pd, ly, 1)
         acc.step()
         st1, o1, _ = meta.run(itype, matcher, backend, P, R)
         tr = [list(fl), list(pm), [list(x) for x in pd], ly if isinstance(ly, str) else list(ly)]
         c2 = {**case, "transform": tr}
-        tag = f"{itype} flip={fl} perm={pm} pad={pd} layout={ly} base pred={bp.tolist()} ref={br.tolist()}"
+        tag = f"{itype} flip={fl} perm={pm} pad={pd} layout={ly} base " + (f"pred={bp.tolist()} ref={br.tolist()}" if bp.size <= 64 else f"large_scene(extent={list(shape)})")
         if st1 == "EXC":
             acc.violation(f"C10:raised:{type(o1).__name__}:{ly if isinstance(ly, str) else '-'.join(ly)}", c2, f"{tag}: evaluate raised {o1!r} on the transformed pair")
             continue
